@@ -172,7 +172,7 @@ def _dataset(draw, hi):
 def subs(tier: str):
     q = tier == "quick"
     return [
-        Sub("mazes", check, "hypothesis", strategy=lambda: _case(20), examples=60 if q else 1200),
-        Sub("sparse-mazes", check, "hypothesis", strategy=lambda: _sparse_case(20), examples=40 if q else 600),
-        Sub("datasets", check_dataset, "hypothesis", strategy=lambda: _dataset(20), examples=20 if q else 300),
+        Sub("mazes", check, "hypothesis", strategy=lambda: _case(20), examples=60 if q else 4000),
+        Sub("sparse-mazes", check, "hypothesis", strategy=lambda: _sparse_case(20), examples=40 if q else 2000),
+        Sub("datasets", check_dataset, "hypothesis", strategy=lambda: _dataset(20), examples=20 if q else 1000),
     ]
